@@ -261,7 +261,7 @@ OWN = dict(classic=Harness('classic', run_classic), des3_parity=Harness('des3_pa
 HARNESSES = dict(OWN)
 HARNESSES.update({k: v for k, v in c01.HARNESSES.items() if k in ('enc', 'siv_enc', 'kw_seal', 'kwp_seal')})
 HARNESSES.update({k: v for k, v in c17.OWN.items() if k == 'raw_mode'})
-HARNESSES.update({k: v for k, v in c11.HARNESSES.items() if k == 'ctr_stream'})
+HARNESSES.update({k: v for k, v in c11.HARNESSES.items() if k in ('ctr_stream', 'chacha_seq')})
 
 
 def own_shapes(tier):
@@ -298,13 +298,14 @@ def shapes(tier):
     jobs += [j for j in c01.shapes(tier) if j[0] in ('enc', 'siv_enc', 'kw_seal', 'kwp_seal')]
     jobs += [j for j in c17.own_shapes(tier) if j[0] == 'raw_mode' and j[1].get('alias', 'none') in ('none', 'same') and j[1]['mode'] != 'ocb']
     jobs += [j for j in c11.shapes(tier) if j[0] == 'ctr_stream' and sum(j[1].get('calls', [0])) < 400]
+    jobs += [j for j in c11.shapes(tier) if j[0] == 'chacha_seq']
     return jobs
 
 
 BOUNDS = dict(classic="AES and 3DES in quick, all six block ciphers in thorough (as uninterpreted bijections of their block size); "
               "message lengths 0,1,bs-1,bs,bs+1,2bs,2bs+1; every CFB segment size; CTR nonce lengths 0..bs-1 with int/bytes/default "
               "initial value; given and library-chosen IVs", aead="the C01 sender grid", raw="the C17 raw-mode grid", ctr="the C11 grid",
-              chacha="one block, symbolic key / nonce / 32-bit counter, both nonce layouts",
+              chacha="one block, symbolic key / nonce / 32-bit counter, both nonce layouts; multi-block streams and 64-bit counter carries through the C11 chacha_seq grid",
               outside=["AES, DES, 3DES, Blowfish, CAST, RC2, RC4, Salsa20 cores (assumed: KAT-tested)", "messages beyond the grids",
                        "Salsa20 / ARC4 wrappers", "AESNI.c"])
 ASSUMPTIONS = list(c01.ASSUMPTIONS) + ["block primitives are assumed to equal their standards"]
